@@ -39,13 +39,13 @@ def run(ctx):
         ctx.guard("C04", "outcomes", lambda: parser.driver_outcomes(ctx, prog))
         ctx.guard("C04", "runlimit", lambda: normal.run_limit_agreement(ctx, prog))
         ctx.guard("C04", "tables", lambda: data.base64_tables(ctx, prog))
-        ctx.guard("C04", "summaries", lambda: summary.check(ctx, prog, 'parser_state::|ParseErrorEither|::from_bytes|::from_str', floor=4))
-        ctx.guard("C04", "path summaries", lambda: summary.check_paths(ctx, prog, 'parser_state::|ParseErrorEither|::from_bytes|::from_str', floor=0))
-        if c in ("dbg", "unsafe_dbg", "strict_dbg"):
-            ctx.guard("C04", "beliefs", lambda: beliefs.census(ctx, prog, beliefs.SCOPES["C04"][0], floor=beliefs.SCOPES["C04"][1]))
         if c == "unsafe":
             # every belief (invariant!) on the parse path is backed by a run-time check of the safe build: an unbacked one (say, a bound
             # on how much text a normalising parser may consume) panics in debug builds and is undefined behaviour under `unsafe`
             ctx.guard("C04", "invpair", lambda: features.invpair(ctx, prog, scope=r"hash::algorithms::parse_|::from_bytes|::from_str|hash_dual::algorithms::(compress_block_hash_with_rle|update_rle_block)", floors=(6, 4)))
         ctx.guard("C04", "casts", lambda: casts.census(ctx, prog, scope='hash::algorithms::parse_|::from_bytes|::from_str|hash_dual::algorithms::(compress_block_hash_with_rle|update_rle_block)', floor=2))
+        ctx.guard("C04", "summaries", lambda: summary.check(ctx, prog, 'parser_state::|ParseErrorEither|::from_bytes|::from_str', floor=4))
+        ctx.guard("C04", "path summaries", lambda: summary.check_paths(ctx, prog, 'parser_state::|ParseErrorEither|::from_bytes|::from_str', floor=0))
+        if c in ("dbg", "unsafe_dbg", "strict_dbg"):
+            ctx.guard("C04", "beliefs", lambda: beliefs.census(ctx, prog, beliefs.SCOPES["C04"][0], floor=beliefs.SCOPES["C04"][1]))
     return ctx.finish(EXPL, ["overflow checks of debug builds are not part of the verdict (release-like configurations decide)", "core slice/iterator APIs panic only as documented", "residue entries are reviewed by hand; each states its reason"])
